@@ -14,6 +14,10 @@ def t3(rep, tier, seed):
     from props._domains import repeated_value_lists, large_value_variants
     dom += [{"values": v, "d": d} for v in repeated_value_lists(tier) for d in (1, 2)]          # long runs of equal values, 7-8 items
     dom += [{"values": v, "d": d} for v in large_value_variants(ms[::7]) for d in (None, 1)]    # sums ~1e7 differing by a few units
+    # long searches (a thousand nodes and more): 15-17 items with large spread, where CBLDM really has to backtrack
+    for _ in range(6 if tier == "quick" else 40):
+        v = [rng.randint(1, 10 ** 5) for _ in range(rng.randint(15, 17))]
+        dom += [{"values": v, "d": None}, {"values": v, "d": 1}]
     rep.add(H.run_case("C12/T3/cbldm/balanced-optimal", "prtpy/partitioning/cbldm.py::cbldm", T.c12_case, dom,
                        f"all multisets n<={N} of 0..{V} + seeded random n<=10; bounds {{default,1,2,3,n}}; oracle = all 2^n subsets obeying the bound"))
 
